@@ -23,7 +23,7 @@ PID = 'C04'
 
 def feasible_orders(ctx, N, P):
     cfg = (f'SPECIFICATION Spec\nCONSTANTS N = {N} P = {P} FaultKs = {{0}} FaultPoints = {{"before"}} '
-           'FaultModes = {"kill"} Fixed = FALSE\nCONSTRAINT EmitStoreOrder\nCHECK_DEADLOCK FALSE\n')
+           'FaultModes = {"kill"} Fixed = TRUE\nCONSTRAINT EmitStoreOrder\nCHECK_DEADLOCK FALSE\n')
     res = run_tlc('WorkerPool', cfg_text=cfg, workers=1, timeout=3600)
     ctx.add_tlc(f'WorkerPool_orders_N{N}_P{P}', res)
     return sorted(set(tuple(t[1]) for t in res.tuples('ORDER')))
@@ -86,7 +86,7 @@ def run(ctx):
     if ctx.only in (None, 'mc'):
         for N, P in combos:
             cfg = (f'SPECIFICATION FairSpec\nCONSTANTS N = {N} P = {P} FaultKs = {{0}} '
-                   'FaultPoints = {"before"} FaultModes = {"kill"} Fixed = FALSE\n'
+                   'FaultPoints = {"before"} FaultModes = {"kill"} Fixed = TRUE\n'
                    'INVARIANT TypeOK\nINVARIANT SeedsInDispatchOrder\nINVARIANT ReturnedComplete\n'
                    'INVARIANT NeverMoreThanP\nINVARIANT ScratchEmptyAtEnd\nPROPERTY NoFaultLeadsToReturn\n'
                    'CHECK_DEADLOCK FALSE\n')
